@@ -85,6 +85,7 @@ def shards(tier):
                             seq="real", bound=sc["bound_one_burst"],
                             via="send_scp"))
     out.append(dict(real_wrap_witness=True))
+    out.append(dict(full_size_replies=True))
     return out
 
 
@@ -569,7 +570,57 @@ def real_wrap_witness(acc):
                     wrong_callbacks=len(called)))
 
 
+def full_size_replies(acc):
+    """Replies as long as the advertised buffer allows (every buffer size
+    4..64 and sizes next to powers of two): the callback receives the whole
+    reply to its command."""
+    from rig.machine_control import scp_connection as sc
+    sizes = list(range(4, 65)) + [115, 116, 117, 243, 244, 245, 256, 499,
+                                  500, 501]
+    for b in sizes:
+        sent = {}
+
+        def responder(sock, data, net, b=b):
+            nonce = struct.unpack_from("<I", data, 14)[0]
+            body = bytes(((nonce * 7 + i) & 0xff) for i in range(b - 4))
+            pkt = reply_bytes(data, OK) + body
+            sent[nonce] = pkt
+            return [(net.LATENCY, pkt, dict(kind="ok", nonce=nonce))]
+        net = Net(responder, budget=2000)
+        got = {}
+        acc.evaluations += 1
+        acc.nontrivial += 1
+        case = dict(full_size_replies=True, buffer=b)
+        try:
+            with Patched(net, [sc]):
+                conn = sc.SCPConnection("host", n_tries=2, timeout=T_DEFAULT)
+                cmds = [sc.scpcall(1, 2, 0, 7, n_, 0, 0, b"",
+                                   (lambda ack, n_=n_: got.__setitem__(
+                                       n_, bytes(ack))))
+                        for n_ in (1, 2, 3)]
+                conn.send_scp_burst(b, 2, iter(cmds))
+        except Exception as e:
+            acc.violation(dict(kind="full_size_reply"), case,
+                          "buffer size %d: burst with full-size replies "
+                          "raised %s: %s" % (b, type(e).__name__, e), size=b)
+            continue
+        for n_ in (1, 2, 3):
+            if got.get(n_) != sent.get(n_):
+                acc.violation(
+                    dict(kind="full_size_reply"), case,
+                    "buffer size %d: the machine replied to command %d with "
+                    "%d bytes, the callback received %s"
+                    % (b, n_, len(sent.get(n_, b"")),
+                       "%d bytes" % len(got[n_]) if n_ in got else "nothing"),
+                    size=b)
+                break
+    acc.sample(dict(full_size_replies=True, sizes=len(sizes)))
+
+
 def run_shard(params, tier, acc):
+    if params.get("full_size_replies"):
+        full_size_replies(acc)
+        return
     if params.get("real_wrap_witness"):
         real_wrap_witness(acc)
         return
@@ -578,6 +629,9 @@ def run_shard(params, tier, acc):
 
 
 def replay(case, acc):
+    if case.get("full_size_replies"):
+        full_size_replies(acc)
+        return
     if case.get("real_wrap_witness"):
         real_wrap_witness(acc)
         return
